@@ -61,7 +61,7 @@ def graph_part(ctx, W):
            [("MC_graph_build5.cfg", True), ("MC_graph_init4.cfg", False), ("MC_graph_init5.cfg", False)]
     cases = []
     for cfg, emits in runs:
-        r = ctx.tlc("modules", "Modules", cfg=cfg, timeout=2400, workers=W, coverage=not quick and cfg != "MC_graph_init5.cfg")
+        r = ctx.tlc("modules", "Modules", cfg=cfg, timeout=7200, workers=W, coverage=not quick and cfg != "MC_graph_init5.cfg")
         ctx.require_tlc_ok(r, cfg)
         if not quick and cfg == "MC_graph_init4.cfg":
             _check_cov(ctx, r, cfg)
@@ -80,11 +80,11 @@ def graph_part(ctx, W):
     # --- spec -> code: replay every DAG; code -> spec: observations --------------------------------
     obs1, obs2 = ctx.path("obs_enum.ndjson"), ctx.path("obs_random.ndjson")
     res = ctx.run_harness("c18", "^TestGraph$", env={"VERIF_IN": allcases, "VERIF_OBS": obs1, "VERIF_REPS": 3,
-                                                    "VERIF_INIT_EVERY": 1 if quick else 8}, timeout=1800)
+                                                    "VERIF_INIT_EVERY": 1 if quick else 12}, timeout=7200)
     if res.get("cases") != ncases:
         _incon("harness replayed %s of %d DAGs" % (res.get("cases"), ncases))
     ctx.absorb(res, "graph replay")
-    res2 = ctx.run_harness("c18", "^TestGraphRandom$", env={"VERIF_OBS": obs2, "VERIF_COUNT": 200 if quick else 3000}, timeout=1800)
+    res2 = ctx.run_harness("c18", "^TestGraphRandom$", env={"VERIF_OBS": obs2, "VERIF_COUNT": 200 if quick else 1000}, timeout=7200)
     ctx.absorb(res2, "random graphs")
     obs = ctx.path("obs.ndjson")
     lines = open(obs1).read() + open(obs2).read()
@@ -104,7 +104,7 @@ def graph_part(ctx, W):
         lines = "\n".join(ls)
     open(obs, "w").write(lines)
     nobs = lines.count("\n")
-    r = ctx.tlc("modules", "ModulesTrace", extra_files={obs: "obs.ndjson"}, workers=W, timeout=2400, deadlock=False, count=False)
+    r = ctx.tlc("modules", "ModulesTrace", extra_files={obs: "obs.ndjson"}, workers=W, timeout=7200, deadlock=False, count=False)
     ctx.require_tlc_ok(r, "validation of the recorded initialisations")
     if r.distinct != nobs:
         _incon("validator looked at %d of %d observation lines" % (r.distinct, nobs))
@@ -130,12 +130,12 @@ def runtime_part(ctx, W):
     cfgs = ["MC_run_quick.cfg"] if quick else \
            ["MC_run_wide3.cfg", "MC_run_late2.cfg", "MC_run_shapes4.cfg", "MC_run_named4.cfg", "MC_run_holes4.cfg", "MC_run_live2.cfg", "MC_run_live.cfg"]
     for cfg in ([] if "nomc" in DEV else cfgs):
-        r = ctx.tlc("modules", "MCRun", cfg=cfg, timeout=3000, workers=W, coverage=(cfg == "MC_run_late2.cfg"))
+        r = ctx.tlc("modules", "MCRun", cfg=cfg, timeout=7200, workers=W, coverage=(cfg == "MC_run_late2.cfg"))
         ctx.require_tlc_ok(r, cfg)
         if cfg == "MC_run_late2.cfg":
             _check_cov(ctx, r, cfg)
     trace = ctx.path("runtime_trace.ndjson")
-    res = ctx.run_harness("c18", "^TestRuntime$", env={"VERIF_TRACE": trace}, timeout=1800)
+    res = ctx.run_harness("c18", "^TestRuntime$", env={"VERIF_TRACE": trace}, timeout=7200)
     ctx.absorb(res, "run-time recording")
     lines = open(trace).read().split("\n")
     if os.environ.get("VERIF_C18_CORRUPT") == "trace":    # self-test: a dependency looks New when a dependant's service starts
@@ -148,7 +148,7 @@ def runtime_part(ctx, W):
         open(trace, "w").write("\n".join(lines))
     nlines = sum(1 for l in lines if l)
     nruns = sum(1 for l in lines if l.startswith('{"k":"h"'))
-    r = ctx.tlc("modules", "ModulesRunTrace", extra_files={trace: "trace.ndjson"}, workers=W, timeout=2400, deadlock=False, count=False)
+    r = ctx.tlc("modules", "ModulesRunTrace", extra_files={trace: "trace.ndjson"}, workers=W, timeout=7200, deadlock=False, count=False)
     ctx.require_tlc_ok(r, "validation of the recorded run-time traces")
     if r.distinct != nlines:
         _incon("validator looked at %d of %d trace lines" % (r.distinct, nlines))
